@@ -819,12 +819,14 @@ struct elements_iterator_t : boost::multi::random_accessable<elements_iterator_t
 	}
 
 	BOOST_MULTI_HD constexpr auto operator+=(difference_type n) -> elements_iterator_t& {
+		if(n == 0) { return *this; }  // also keeps `it + 0` valid for ranges with zero elements (e.g. uninitialized_copy_n(first, 0, dest))
 		auto const nn = std::apply(xs_, ns_);
 		ns_ = xs_.from_linear(nn + n);
 		n_ += n;
 		return *this;
 	}
 	BOOST_MULTI_HD constexpr auto operator-=(difference_type n) -> elements_iterator_t& {
+		if(n == 0) { return *this; }
 		auto const nn = std::apply(xs_, ns_);
 		ns_ = xs_.from_linear(nn - n);
 		n_ -= n;
